@@ -16,6 +16,7 @@ HOSTILE_TEXT = [
 ]
 CR_TEXT = ['a\ue00db', 'line\ue00d\nend', '\ue00d']
 NOTE_TEXT = ['(BONG)', '<VT IN>', '(', ')', '()', '<>', '( x )', '  (padded note)  ', '(half', 'half)',
+             '(two\nlines)', '<a\nb>', '(\n)', '\n(note after a line feed)\n', 'plain\n(second line in brackets)',
              '(mix>', '<mix)', '', ' ', '\n  \n', 'plain (with) brackets', '<a> and <b>', '(a) then (b)']
 HOSTILE_IDS = ['S1', 'S10', 'S1 ', ' S1', 's1', 'S01', 'A&B', 'x<y', 'q"q', "o'o", '5" x 7\' card',
                'B"][itemID=\'B\'][itemID="B', 'éè', '\U0001F600',
@@ -52,7 +53,8 @@ def text_pool(mode):
 def rich_blob(rng, depth, pool, tag=None):
     """A nested element with attributes, mixed text and tails."""
     e = E(tag or rng.choice(['meta', 'data', 'blk', 'story', 'item', 'roDelete', 'mosromgrmeta',
-                             'roCreate', 'storyID', 'itemID', 'p']))
+                             'roCreate', 'storyID', 'itemID', 'p', '{urn:vendor}clip', '{urn:vendor}TextTime',
+                             '{urn:vendor}storyID', '{urn:vendor}item', '{urn:vendor}roDelete']))
     if rng.random() < 0.5:
         e.set(rng.choice(['a', 'type', 'lang', 'x-y']), rng.choice(pool))
     if rng.random() < 0.3:
@@ -85,14 +87,42 @@ def xml_noise(rng, text, p=0.2):
             return m.group(0) + '<?editor hint="%d"?>' % rng.randint(0, 9)
         return m.group(0)
     out = re.sub(r'</[A-Za-z_][\w.-]*>', after_close, text)
-    def cdata(m):
-        if rng.random() < 0.15 and ']]>' not in m.group(1):
-            return '><![CDATA[' + m.group(1) + ']]></'
+    def leaf(m):
+        t = m.group(1)
+        r = rng.random()
+        if r < 0.12 and ']]>' not in t:
+            return '><![CDATA[' + t + ']]></'
+        if r < 0.30:
+            # a comment / PI in the middle of character data (IDs, durations, slugs ...):
+            # the parser drops it and the text is the concatenation of the pieces
+            k = rng.randint(0, len(t))
+            ins = '<!-- rev %d -->' % rng.randint(0, 9) if rng.random() < 0.7 else '<?x y?>'
+            return '>' + t[:k] + ins + t[k:] + '</'
         return m.group(0)
-    out = re.sub(r'>([^<&]+)</', cdata, out)
-    if rng.random() < 0.3 and not out.lstrip().startswith('<?xml'):
-        out = '<?xml version="1.0" encoding="UTF-8"?>\n' + out
+    out = re.sub(r'>([^<&]+)</', leaf, out)
+    r = rng.random()
+    if not out.lstrip().startswith('<?xml') and '<!DOCTYPE' not in out:
+        if r < 0.25:
+            out = '<?xml version="1.0" encoding="UTF-8"?>\n' + out
+        elif r < 0.40:
+            root = re.match(r'\s*<([A-Za-z_][\w.-]*)', out)
+            if root:
+                out = '<!DOCTYPE %s [<!ENTITY verifent "entity text">]>\n' % root.group(1) + out
     return out
+
+
+def split_ids(rng, text, p=0.5):
+    """Put a comment before the last character of storyID / itemID texts: for a
+    parser that drops comments the ID is unchanged; anything that keeps them as
+    nodes reads a PREFIX of the ID (S1<!-- c -->0 -> "S1"), which collides with
+    another element when IDs are prefixes of one another."""
+    import re
+    def f(m):
+        if rng.random() < p:
+            t = m.group(2)
+            return '<%s>%s<!-- c -->%s</' % (m.group(1), t[:-1], t[-1:])
+        return m.group(0)
+    return re.sub(r'<(storyID|itemID)>([^<&]{2,})</', f, text)
 
 
 def rand_timing(rng, mode='any'):
@@ -117,12 +147,23 @@ def rand_timing(rng, mode='any'):
     else:
         kw['text_time'] = q()
         kw['media_time'] = q()
-    fmt = rng.choice(['%sT%s', '%sT%s', '%s %s', '%sT%s.250000'])     # ISO-8601 spellings both parsers read
+    fmt = rng.choice(['%sT%s', '%sT%s', '%s %s', '%sT%s.250000', 'MINUTE', 'DATE'])   # ISO-8601 spellings
+    def spell(day, hh, mm, ss):
+        if fmt == 'MINUTE':
+            return '%sT%02d:%02d' % (day, hh, mm)          # no seconds
+        if fmt == 'DATE':
+            return day                                     # date only: midnight
+        return fmt % (day, '%02d:%02d:%02d' % (hh, mm, ss))
     if rng.random() < 0.2:
-        kw['started'] = fmt % ('2020-01-01', '%02d:%02d:00' % (rng.randint(0, 23), rng.randint(0, 59)))
+        kw['started'] = spell('2020-01-01', rng.randint(0, 23), rng.randint(0, 59), 0)
     if rng.random() < 0.2:
-        kw['ended'] = fmt % ('2020-01-02', '%02d:%02d:30' % (rng.randint(0, 23), rng.randint(0, 59)))
-    return B.timing(**kw)
+        kw['ended'] = spell('2020-01-02', rng.randint(0, 23), rng.randint(0, 59), 30)
+    t = B.timing(**kw)
+    if rng.random() < 0.15:
+        # a vendor element in its own namespace whose local name looks like a MOS timing tag
+        p = t.find('mosPayload')
+        p.insert(0, E('{urn:vendor}' + rng.choice(['TextTime', 'StoryDuration', 'StoryStarted']), '90'))
+    return t
 
 
 def rand_item(rng, item_id, pool, rich=True, tag='item'):
@@ -227,7 +268,8 @@ def rand_ro(rng, n_stories=None, meta_layout=None, pool=None, timing='any', ids=
                 entries.append(mm)
     if ed_start == 'auto':
         r = rng.random()
-        ed_start = '2020-01-01T12:30:00' if r < 0.7 else ('' if r < 0.8 else None)
+        ed_start = ('2020-01-01T12:30:00' if r < 0.45 else '2020-01-01T12:30:15' if r < 0.6 else
+                    '2020-01-01T12:30:15.500000' if r < 0.7 else ('' if r < 0.8 else None))
     pretty = rng.random() < 0.5 if pretty is None else pretty
     env = {}
     if rich and rng.random() < 0.3:
@@ -312,6 +354,8 @@ def _rand_message(rng, state, kind, message_id, ids, pool=None, ro_id='RO', timi
         for _ in range(n):
             chosen.append(ref(S, allow_absent=False, exclude=() if rng.random() < selfref else
                               tuple(c for c in chosen if isinstance(c, str))))
+        if kind == 'EAStoryDelete' and len(chosen) > 1 and rng.random() < 0.15:
+            kw['split_sources'] = True      # one element_source per ID (not what the schema says, but it is read)
         if kind == 'EAStoryDelete' and rng.random() < 0.4:
             # element_target is "not needed" for a delete, but it may be there - and must be ignored
             kw['target'] = rng.choice([BLANK, 'UNKNOWN-t'] + [x for x in S if x not in chosen][:2])
@@ -325,6 +369,8 @@ def _rand_message(rng, state, kind, message_id, ids, pool=None, ro_id='RO', timi
         t = ref(S, exclude=() if rng.random() < selfref else tuple(c for c in chosen if isinstance(c, str)))
         if t is ABSENT and rng.random() < 0.5:
             kw['target_el'] = False
+        if len(chosen) > 1 and rng.random() < 0.15:
+            kw['split_sources'] = True
         return B.msg_doc(kind, message_id, ro_id, ids=chosen, target=t, **kw)
     if kind == 'EAStorySwap':
         a = ref(S, allow_absent=False)
